@@ -1065,6 +1065,12 @@ def oracle_parse(a):
             if got != exp:
                 return f"XSD-valid {kind} {s!r} parsed as {got}, XSD assigns {exp}"
     if got is not None:
+        # converse (theorems *_accepts_only_valid): what is accepted is, after Python's strip(), an XSD lexical form
+        conv = xsd_components(kind, s.strip())
+        if conv is None:
+            return f"{kind} {s!r} is accepted as {got} but {s.strip()!r} is no XSD lexical form"
+        if conv != got:
+            return f"{kind} {s!r} is accepted as {got}, XSD assigns {conv}"
         if not real_value(kind, got):
             return f"{kind} {s!r} denotes no real calendar date/time of day but is accepted as {got}"
         if not _offset_ok(got):
